@@ -12,7 +12,8 @@ Record cfg := mkCfg { c_id : Z; c_name : Z; c_base : Z; c_cap : Z; c_jit : Z; c_
 (* c_name: id of the name string (0 = ""); c_jit: 1 NoJitter 2 FullJitter 3 EqualJitter 4 DecorrJitter *)
 
 (* static environment: isSleepExcluded (name -> limit) and the name id of "txnLockFast" *)
-Record env := mkEnv { e_excl : list (Z * Z); e_lfname : Z }.
+Record env := mkEnv { e_excl : list (Z * Z); e_lfnames : list Z }.
+(* e_lfnames: ids of the names n with strings.EqualFold(n, "txnLockFast") *)
 
 (* closure state of newBackoffFn *)
 Record fnst := mkFn { f_base : Z; f_cap : Z; f_jit : Z; f_att : Z; f_last : Z }.
@@ -27,13 +28,16 @@ Record bo := mkBo {
   b_cfgs : list cfg;
   b_sleep : list (Z * Z); b_times : list (Z * Z);   (* backoffSleepMS, backoffTimes *)
   b_parent : option nat;
-  b_live : bool                             (* false once handed to UpdateUsingForked (contract) *)
+  b_live : bool;                            (* false once handed to UpdateUsingForked (contract) *)
+  b_hi : option Z                           (* GHOST (not in the code): largest budget under which the current
+                                               total was accumulated; None = some unlimited budget took part *)
 }.
 
 Record world := mkWorld {
   w_bos : list bo;
   w_ctxs : list (option nat * bool);       (* parent ctx, cancelled *)
-  w_vars : list vars
+  w_vars : list vars;
+  w_cerr : list (Z * Z)                    (* Config.SetErrors: config id -> current error id *)
 }.
 
 Inductive op :=
@@ -46,7 +50,9 @@ Inductive op :=
 | OReset (i : nat)
 | OResetMax (i : nat) (m : Z)
 | OCancel (c : nat)
-| OKill (v : nat) (sig : Z).
+| OKill (v : nat) (sig : Z)
+| OSetErr (cid : Z) (err : Z)               (* Config.SetErrors on the config with pointer identity cid *)
+| OSetCtx (i : nat) (c : nat).              (* bos[i].SetCtx(ctx c) *)
 
 Inductive res :=
 | RNone                                      (* op without a result *)
@@ -119,16 +125,19 @@ Fixpoint longest_val (e : env) (l : list (Z * Z)) : Z :=
   end.
 Fixpoint first_cfg (name : Z) (l : list cfg) : option cfg :=
   match l with [] => None | c :: r => if c_name c =? name then Some c else first_cfg name r end.
-Definition cand_err (b : bo) (name : Z) : option Z :=
-  match first_cfg name (b_cfgs b) with Some c => Some (c_err c) | None => None end.
+(* the error a config carries NOW (SetErrors may have replaced the one it had when it was recorded) *)
+Definition cur_err (w : world) (c : cfg) : Z :=
+  match aget (c_id c) (w_cerr w) with Some e => e | None => c_err c end.
+Definition cand_err (w : world) (b : bo) (name : Z) : option Z :=
+  match first_cfg name (b_cfgs b) with Some c => Some (cur_err w c) | None => None end.
 (* map iteration order is arbitrary and the comparison is strict: every name that attains the
    maximum may be the candidate; with no positive non-excluded sleep the candidate is "" *)
-Definition longest_cands (e : env) (b : bo) : list (option Z) :=
+Definition longest_cands (e : env) (w : world) (b : bo) : list (option Z) :=
   let m := longest_val e (b_sleep b) in
   if 0 <? m
-  then map (fun nv => cand_err b (fst nv))
+  then map (fun nv => cand_err w b (fst nv))
            (filter (fun nv => negb (is_excl e (fst nv)) && (snd nv =? m)) (b_sleep b))
-  else [cand_err b 0].
+  else [cand_err w b 0].
 
 (* ---- errors ring ---- *)
 Definition push_err (b : bo) (errid : Z) : list Z * Z :=
@@ -143,7 +152,7 @@ Definition weighted (m w : Z) : Z :=
   if (0 <? m) && (m <=? Z.quot max_int32 w) then m * w else m.
 
 (* ---- operations ---- *)
-Definition set_bo (w : world) (i : nat) (b : bo) : world := mkWorld (upd i b (w_bos w)) (w_ctxs w) (w_vars w).
+Definition set_bo (w : world) (i : nat) (b : bo) : world := mkWorld (upd i b (w_bos w)) (w_ctxs w) (w_vars w) (w_cerr w).
 
 Definition killed_sig (w : world) (b : bo) : Z :=
   match b_vars b with
@@ -152,7 +161,7 @@ Definition killed_sig (w : world) (b : bo) : Z :=
   end.
 
 Definition fn_base (e : env) (w : world) (b : bo) (c : cfg) : option Z :=
-  if c_name c =? e_lfname e
+  if existsb (Z.eqb (c_name c)) (e_lfnames e)
   then match b_vars b with
        | Some v => match nth_error (w_vars w) v with Some x => Some (v_lockfast x) | None => None end
        | None => None
@@ -168,6 +177,10 @@ Definition pick_fn (e : env) (w : world) (b : bo) (c : cfg) : option fnst :=
             end
   end.
 
+Definition budget_hi (m : Z) : option Z := if 0 <? m then Some m else None.
+Definition join_hi (a b : option Z) : option Z :=
+  match a, b with Some x, Some y => Some (Z.max x y) | _, _ => None end.
+
 (* the back-offer after a sleep of [cut s maxms] ms of kind [c] through closure state [f] *)
 Definition slept_bo (e : env) (b : bo) (c : cfg) (f : fnst) (s maxms errid : Z) : bo :=
   let name := c_name c in
@@ -178,7 +191,7 @@ Definition slept_bo (e : env) (b : bo) (c : cfg) (f : fnst) (s maxms errid : Z) 
        (aset name (fn_next f s) (b_fn b))
        (fst (push_err b errid)) (snd (push_err b errid)) (b_cfgs b ++ [c])
        (zadd name real (b_sleep b)) (zadd name 1 (b_times b))
-       (b_parent b) true.
+       (b_parent b) true (b_hi b).
 
 Definition do_backoff (e : env) (w : world) (i : nat) (c : cfg) (maxms errid s : Z) : world * res :=
   match nth_error (w_bos w) i with
@@ -187,7 +200,7 @@ Definition do_backoff (e : env) (w : world) (i : nat) (c : cfg) (maxms errid s :
     if negb (b_live b) then (w, RBad)
     else if cancelled w (b_ctx b) then (w, RErrOrig)
     else if b_noop b then (w, RErrOrig)
-    else if (0 <? b_max b) && exceeded e b (c_name c) then (w, RExceeded (longest_cands e b))
+    else if (0 <? b_max b) && exceeded e b (c_name c) then (w, RExceeded (longest_cands e w b))
     else
       match pick_fn e w b c with
       | None => (w, RBad)
@@ -202,7 +215,7 @@ Definition do_backoff (e : env) (w : world) (i : nat) (c : cfg) (maxms errid s :
 
 Definition copy_bo (b : bo) (ctx : nat) (parent : option nat) : bo :=
   mkBo ctx false (b_vars b) (b_max b) (b_total b) (b_excl b) [] (b_errs b) (b_errnum b)
-       (b_cfgs b) (b_sleep b) (b_times b) parent true.
+       (b_cfgs b) (b_sleep b) (b_times b) parent true (b_hi b).
 
 (* is [i] on the parent chain that starts at [p]? *)
 Fixpoint on_chain (fuel : nat) (bs : list bo) (p : option nat) (i : nat) : bool :=
@@ -214,35 +227,40 @@ Fixpoint on_chain (fuel : nat) (bs : list bo) (p : option nat) (i : nat) : bool 
 
 Definition merged (b f : bo) : bo :=
   mkBo (b_ctx b) (b_noop b) (b_vars b) (b_max b) (b_total f) (b_excl f) (b_fn b)
-       (b_errs f) (b_errnum f) (b_cfgs f) (b_sleep f) (b_times f) (b_parent b) (b_live b).
+       (b_errs f) (b_errnum f) (b_cfgs f) (b_sleep f) (b_times f) (b_parent b) (b_live b)
+       (join_hi (budget_hi (b_max b)) (b_hi f)).
 Definition kill_bo (f : bo) : bo :=
   mkBo (b_ctx f) (b_noop f) (b_vars f) (b_max f) (b_total f) (b_excl f) (b_fn f)
-       (b_errs f) (b_errnum f) (b_cfgs f) (b_sleep f) (b_times f) (b_parent f) false.
+       (b_errs f) (b_errnum f) (b_cfgs f) (b_sleep f) (b_times f) (b_parent f) false (b_hi f).
 
 Definition reset_bo (b : bo) (m : Z) : bo :=
   mkBo (b_ctx b) (b_noop b) (b_vars b) m 0 0 [] (b_errs b) (b_errnum b)
-       (b_cfgs b) (b_sleep b) (b_times b) (b_parent b) (b_live b).
+       (b_cfgs b) (b_sleep b) (b_times b) (b_parent b) (b_live b) (budget_hi m).
+
+Definition with_ctx (b : bo) (c : nat) : bo :=
+  mkBo c (b_noop b) (b_vars b) (b_max b) (b_total b) (b_excl b) (b_fn b) (b_errs b) (b_errnum b)
+       (b_cfgs b) (b_sleep b) (b_times b) (b_parent b) (b_live b) (b_hi b).
 
 Definition empty_bo (ctx : nat) (noop : bool) (v : option nat) (m : Z) : bo :=
-  mkBo ctx noop v m 0 0 [] [0; 0; 0] 0 [] [] [] None true.
+  mkBo ctx noop v m 0 0 [] [0; 0; 0] 0 [] [] [] None true (budget_hi m).
 
 Definition step (e : env) (w : world) (o : op) : world * res :=
   match o with
-  | ONewVars wt lf => (mkWorld (w_bos w) (w_ctxs w) (w_vars w ++ [mkVars wt lf 0]), RNone)
+  | ONewVars wt lf => (mkWorld (w_bos w) (w_ctxs w) (w_vars w ++ [mkVars wt lf 0]) (w_cerr w), RNone)
   | ONew m v mode =>
     let c := length (w_ctxs w) in
     let ctxs := w_ctxs w ++ [(None, false)] in
-    if mode =? 2 then (mkWorld (w_bos w ++ [empty_bo c true None 0]) ctxs (w_vars w), RNone)
-    else if mode =? 1 then (mkWorld (w_bos w ++ [empty_bo c false (Some O) m]) ctxs (w_vars w), RNone)
+    if mode =? 2 then (mkWorld (w_bos w ++ [empty_bo c true None 0]) ctxs (w_vars w) (w_cerr w), RNone)
+    else if mode =? 1 then (mkWorld (w_bos w ++ [empty_bo c false (Some O) m]) ctxs (w_vars w) (w_cerr w), RNone)
     else match nth_error (w_vars w) v with
          | None => (w, RBad)
          | Some x => if v_weight x =? 0 then (w, RBad)
-                     else (mkWorld (w_bos w ++ [empty_bo c false (Some v) (weighted m (v_weight x))]) ctxs (w_vars w), RNone)
+                     else (mkWorld (w_bos w ++ [empty_bo c false (Some v) (weighted m (v_weight x))]) ctxs (w_vars w) (w_cerr w), RNone)
          end
   | OBackoff i c maxms errid s => do_backoff e w i c maxms errid s
   | OClone i =>
     match nth_error (w_bos w) i with
-    | Some b => if b_live b then (mkWorld (w_bos w ++ [copy_bo b (b_ctx b) (b_parent b)]) (w_ctxs w) (w_vars w), RNone)
+    | Some b => if b_live b then (mkWorld (w_bos w ++ [copy_bo b (b_ctx b) (b_parent b)]) (w_ctxs w) (w_vars w) (w_cerr w), RNone)
                 else (w, RBad)
     | None => (w, RBad)
     end
@@ -250,7 +268,7 @@ Definition step (e : env) (w : world) (o : op) : world * res :=
     match nth_error (w_bos w) i with
     | Some b => if b_live b
                 then (mkWorld (w_bos w ++ [copy_bo b (length (w_ctxs w)) (Some i)])
-                              (w_ctxs w ++ [(Some (b_ctx b), false)]) (w_vars w), RNone)
+                              (w_ctxs w ++ [(Some (b_ctx b), false)]) (w_vars w) (w_cerr w), RNone)
                 else (w, RBad)
     | None => (w, RBad)
     end
@@ -259,7 +277,7 @@ Definition step (e : env) (w : world) (o : op) : world * res :=
     | Some b, Some f =>
       if negb (b_live b && b_live f) then (w, RBad)
       else if on_chain (length (w_bos w)) (w_bos w) (b_parent f) i
-      then (mkWorld (upd j (kill_bo f) (upd i (merged b f) (w_bos w))) (w_ctxs w) (w_vars w), RNone)
+      then (mkWorld (upd j (kill_bo f) (upd i (merged b f) (w_bos w))) (w_ctxs w) (w_vars w) (w_cerr w), RNone)
       else (w, RNone)
     | _, _ => (w, RBad)
     end
@@ -286,18 +304,24 @@ Definition step (e : env) (w : world) (o : op) : world * res :=
     end
   | OCancel c =>
     match nth_error (w_ctxs w) c with
-    | Some (p, _) => (mkWorld (w_bos w) (upd c (p, true) (w_ctxs w)) (w_vars w), RNone)
+    | Some (p, _) => (mkWorld (w_bos w) (upd c (p, true) (w_ctxs w)) (w_vars w) (w_cerr w), RNone)
     | None => (w, RBad)
     end
   | OKill v sig =>
     match nth_error (w_vars w) v with
-    | Some x => (mkWorld (w_bos w) (w_ctxs w) (upd v (mkVars (v_weight x) (v_lockfast x) sig) (w_vars w)), RNone)
+    | Some x => (mkWorld (w_bos w) (w_ctxs w) (upd v (mkVars (v_weight x) (v_lockfast x) sig) (w_vars w)) (w_cerr w), RNone)
     | None => (w, RBad)
+    end
+  | OSetErr cid err => (mkWorld (w_bos w) (w_ctxs w) (w_vars w) (aset cid err (w_cerr w)), RNone)
+  | OSetCtx i c =>
+    match nth_error (w_bos w) i, nth_error (w_ctxs w) c with
+    | Some b, Some _ => if b_live b then (set_bo w i (with_ctx b c), RNone) else (w, RBad)
+    | _, _ => (w, RBad)
     end
   end.
 
 (* DefaultVars is variables #0 *)
-Definition init_world : world := mkWorld [] [] [mkVars 2 10 0].
+Definition init_world : world := mkWorld [] [] [mkVars 2 10 0] [].
 
 Definition run (e : env) (w : world) (ops : list op) : world :=
   fold_left (fun w o => fst (step e w o)) ops w.
